@@ -183,6 +183,7 @@ impl Check for C06 {
         }
         crate::gen::session_variants(&mut r, &mut events, 4, 12, 0);
         crate::gen::nest_variants(&mut r, &mut events);
+        crate::gen::builtin_delete_variants(&mut r, &mut events, &["convert_money", "money_on", "money_of", "money_off"]);
         crate::gen::unwind_variants(&mut r, &mut events);
         crate::gen::decliner_variants(&mut r, &mut events);
         if r.chance(1, 5) {
